@@ -17,7 +17,7 @@ open Fs Fs.Path Fs.Ref
 inductive Meth where
   | getinfo | listdir | scandir | makedir | makedirs | openbin | open_ | remove | removedir
   | readbytes | getsize | gettype | isdir | isfile | exists_ | setinfo | validatepath
-  | upload | writebytes | close
+  | upload | writebytes | close | readtext | writetext | download
   deriving DecidableEq, Repr, Inhabited
 
 def Meth.name : Meth → String
@@ -26,7 +26,8 @@ def Meth.name : Meth → String
   | .removedir => "removedir" | .readbytes => "readbytes" | .getsize => "getsize"
   | .gettype => "gettype" | .isdir => "isdir" | .isfile => "isfile" | .exists_ => "exists"
   | .setinfo => "setinfo" | .validatepath => "validatepath" | .upload => "upload"
-  | .writebytes => "writebytes" | .close => "close"
+  | .writebytes => "writebytes" | .close => "close" | .readtext => "readtext"
+  | .writetext => "writetext" | .download => "download"
 
 deriving instance DecidableEq for Ref.Op
 
@@ -61,13 +62,15 @@ inductive Prim where
   | remove (p : Str) | removedir (p : Str) | readbytes (p : Str) | getsize (p : Str)
   | gettype (p : Str) | isdir (p : Str) | isfile (p : Str) | setinfo (p : Str)
   | upload (p : Str) (data : Bytes) | writebytes (p : Str) (data : Bytes)
+  | readtext (p : Str) | download (p : Str) | writetext (p : Str) (data : Bytes)
+  | open_ (p : Str) (mode : Str) (data : Option Bytes)
   deriving Repr, Inhabited
 
 def Prim.path : Prim → Str
   | .getinfo p | .listdir p | .scandir p | .scanFirst p | .makedir p _ | .makedirs p _
   | .openbin p _ | .openRead p | .openWrite p | .openAppend p _ | .remove p | .removedir p
   | .readbytes p | .getsize p | .gettype p | .isdir p | .isfile p | .setinfo p
-  | .upload p _ | .writebytes p _ => p
+  | .upload p _ | .writebytes p _ | .readtext p | .download p | .writetext p _ | .open_ p _ _ => p
 
 /-- the method name the member receives -/
 def Prim.meth : Prim → Meth
@@ -78,6 +81,31 @@ def Prim.meth : Prim → Meth
   | .readbytes _ => .readbytes | .getsize _ => .getsize | .gettype _ => .gettype
   | .isdir _ => .isdir | .isfile _ => .isfile | .setinfo _ => .setinfo
   | .upload _ _ => .upload | .writebytes _ _ => .writebytes
+  | .readtext _ => .readtext | .download _ => .download | .writetext _ _ => .writetext
+  | .open_ _ _ _ => .open_
+
+/-- `mode.replace("t", "")`: the mode `FS.open` hands to `openbin` -/
+def binMode (m : Str) : Str := m.filter (· != 't')
+
+/-- `len(set(mode)) == len(mode)` -/
+def noRepeat : Str → Bool
+  | [] => true
+  | c :: cs => !cs.contains c && noRepeat cs
+
+/-- `Mode(mode)` (the constructor validates; also `validate_open_mode`): non-empty, characters
+among `rwxtab+`, first character among `rwxa`, not both `t` and `b`, and (since 10e1506, the
+rules of `io.open`) no repeated character and exactly one of `r w x a`; `false` = `ValueError` -/
+def modeOk (m : Str) : Bool :=
+  match m with
+  | [] => false
+  | c :: _ =>
+    m.all (fun x => modeValidChars.contains x) && ['r', 'w', 'x', 'a'].contains c &&
+      !(m.contains 't' && m.contains 'b') && noRepeat m &&
+      (['r', 'w', 'x', 'a'].filter fun x => m.contains x).length == 1
+
+/-- `check_writable(mode)` = `Mode(mode).writing` -/
+def checkWritable (m : Str) : Bool :=
+  m.contains 'w' || m.contains 'a' || m.contains '+' || m.contains 'x'
 
 def modeWb : Str := ['w', 'b']
 
@@ -104,12 +132,17 @@ def Prim.memberOp : Prim → Str → Ref.Op
   | .setinfo _, r => .settimes r
   | .upload _ d, r => .writebytes r d
   | .writebytes _ d, r => .writebytes r d
+  | .readtext _, r => .readbytes r
+  | .download _, r => .readbytes r
+  | .writetext _ d, r => .writebytes r d
+  | .open_ _ m _, r => .openbin r (binMode m)   -- the open itself; what is then written: `openCall`
 
 /-- does the primitive create or write data (the calls MultiFS must send to its write layer)? -/
 def Prim.writes : Prim → Bool
   | .makedir _ _ | .makedirs _ _ | .openWrite _ | .openAppend _ _ | .setinfo _
   | .upload _ _ | .writebytes _ _ => true
-  | .openbin _ m => m.contains 'w' || m.contains 'a' || m.contains '+' || m.contains 'x'
+  | .writetext _ _ => true
+  | .openbin _ m | .open_ _ m _ => m.contains 'w' || m.contains 'a' || m.contains '+' || m.contains 'x'
   | _ => false
 
 /-- `member.validatepath(r)` (FS.validatepath of a MemoryFS-like member): closed check, invalid
@@ -126,6 +159,40 @@ def memberValidate (m : Ref.State) (r : Str) : Res Unit :=
 def memberCall (f : Fss) (i : Nat) (meth : Meth) (path : Str) (op : Ref.Op) : Fss × Out × Call :=
   let m := Ref.step (f i) op
   (f.set i m.1, m.2, ⟨i, meth, path, op⟩)
+
+/-- What a client that got a file object from `open(r, mode)` and wrote `d` at the position the
+mode starts at, then closed it, did to the file (`old` = its content when opened): `a` appends,
+`w`/`x` start from an empty file, `r+` overwrites from the start.  `none`: nothing is written
+(no data, or a mode that cannot write). -/
+def writeEffect (r bm : Str) (data : Option Bytes) (old : Bytes) : Option Ref.Op :=
+  match data with
+  | none => none
+  | some d =>
+    if !checkWritable bm then none
+    else if bm.contains 'a' then some (.appendbytes r d)
+    else if bm.contains 'w' || bm.contains 'x' then some (.writebytes r d)
+    else some (.writebytes r (d ++ old.drop d.length))
+
+/-- `member.open(r, mode)`, then optionally one `write(d)`, then `close()`: the member opens the
+file (`openbin` with `mode` without `t`: verdict, creation, truncation) and, if that succeeded,
+the written data lands as `writeEffect` says.  One call in the trace. -/
+def openCall (f : Fss) (i : Nat) (r bm : Str) (data : Option Bytes) : Fss × Out × Call :=
+  let m1 := Ref.step (f i) (.openbin r bm)
+  let c : Call := ⟨i, .open_, r, .openbin r bm⟩
+  let old : Bytes := match (Ref.step m1.1 (.readbytes r)).2 with
+    | .ok (.bytes b) => b
+    | _ => []
+  match m1.2, writeEffect r bm data old with
+  | .ok _, some w =>
+    let m2 := Ref.step m1.1 w
+    (f.set i m2.1, m2.2, c)
+  | _, _ => (f.set i m1.1, m1.2, c)
+
+/-- forward the primitive to member `i` with the member-relative path -/
+def forward (f : Fss) (i : Nat) (pr : Prim) (path : Str) : Fss × Out × Call :=
+  match pr with
+  | .open_ _ m d => openCall f i path (binMode m) d
+  | _ => memberCall f i pr.meth path (pr.memberOp path)
 
 /-- `abspath(normpath(p))` when it succeeds (the value `validatepath` returns) -/
 def absnorm (p : Str) : Str :=
